@@ -543,6 +543,15 @@ func (tr *trans) call(v ssa.Value, c *ssa.CallCommon, st State) {
 		}
 	}
 	tr.panicCheck("nil-func-call:"+tr.srcText(pos)+":"+c.Value.Name(), not(eq(tr.val(c.Value), "0")), pos)
+	// call through a struct field of function type: contract keyed by pkg.Struct.field
+	if key := funcFieldKey(c.Value); key != "" {
+		if fc := tr.prog.CS.Funcs[key]; fc != nil {
+			rs := tr.applyContract(fc, sig, key, nil, nil, args, st, pos, nil)
+			tr.setResults(v, rs)
+			tr.note("assumed contract of function-typed field " + key + " (its implementations are checked where they are under contract)")
+			return
+		}
+	}
 	tr.uncontracted(v, "dynamic call of "+c.Value.Name()+" at "+tr.srcText(pos), sig, st)
 }
 
@@ -980,4 +989,32 @@ func (tr *trans) atomicCall(v ssa.Value, name string, c *ssa.CallCommon, st Stat
 		return false
 	}
 	return true
+}
+
+// funcFieldKey: "pkgpath.Struct.field" when v is the value of a function-typed struct field.
+func funcFieldKey(v ssa.Value) string {
+	var st types.Type
+	idx := -1
+	switch x := v.(type) {
+	case *ssa.Field:
+		st, idx = x.X.Type(), x.Field
+	case *ssa.UnOp:
+		if fa, ok := x.X.(*ssa.FieldAddr); ok && x.Op == token.MUL {
+			if pt, ok := fa.X.Type().Underlying().(*types.Pointer); ok {
+				st, idx = pt.Elem(), fa.Field
+			}
+		}
+	}
+	if st == nil {
+		return ""
+	}
+	n, ok := st.(*types.Named)
+	if !ok || n.Obj().Pkg() == nil {
+		return ""
+	}
+	s, ok := n.Underlying().(*types.Struct)
+	if !ok || idx >= s.NumFields() {
+		return ""
+	}
+	return n.Obj().Pkg().Path() + "." + n.Obj().Name() + "." + s.Field(idx).Name()
 }
